@@ -160,6 +160,15 @@ func init() {
 		in.bpf().bound[p] = m
 		return nil
 	}
+	// vBPFMapClear(prog, name): every entry of the map is gone (LRU eviction, flush)
+	h["vBPFMapClear"] = func(in *Interp, fr *frame, a []Value) Value {
+		if m := in.bpfMapsFor(a[0].(string))[a[1].(string)]; m != nil {
+			for _, e := range m.Entries {
+				e.Deleted = true
+			}
+		}
+		return nil
+	}
 	h["vBPFNow"] = func(in *Interp, fr *frame, a []Value) Value {
 		in.bpf().now = a[0].(*Term)
 		return nil
